@@ -870,6 +870,31 @@ macro_rules! grow_shrink_step {
     };
 }
 
+// Archetype::len / is_empty count rows, not columns (Archetypes::shrink_to_fit drops the tables for
+// which is_empty() holds): every combination of "has columns" and "has rows".
+macro_rules! rows_step {
+    ($name:ident, $R:ty, [$($b:expr),*], n = $N:expr) => {
+        #[kani::proof]
+        #[kani::unwind(18)]
+        pub fn $name() {
+            const N: usize = $N;
+            let bits = [$($b),*];
+            let identifier = ident::<$R>(bits_to_bytes(&bits));
+            let ids = any_ids::<N>();
+            let arch = any_archetype::<$R>(identifier, &bits, N, N, &ids);
+            vassert!(arch.len() == N, "len() is the number of rows");
+            vassert!(arch.is_empty() == (N == 0), "is_empty() is about rows, not about columns");
+            kani::cover!(true, "reached end");
+            core::mem::forget(arch);
+        }
+    };
+}
+
+rows_step!(rows_q_ab_none_n2, RAB, [false, false], n = 2);
+rows_step!(rows_q_ab_both_n0, RAB, [true, true], n = 0);
+rows_step!(rows_t_ab_none_n0, RAB, [false, false], n = 0);
+rows_step!(rows_t_ab_a_n1, RAB, [true, false], n = 1);
+
 grow_shrink_step!(grow_q_azd_n2, RAZD, [true, true, true], entity = (A, Z, D), n = 2, cap = 4, additional = 1, s = 2, f = 0);
 grow_shrink_step!(grow_t_dbwa_n1, RDBWA, [true, true, true, true], entity = (D, B, W, A), n = 1, cap = 1, additional = 2, s = 2, f = 1);
 grow_shrink_step!(grow_t_ab_n0, RAB, [true, true], entity = (A, B), n = 0, cap = 0, additional = 0, s = 0, f = 0);
